@@ -30,7 +30,7 @@ reg(
     quick={"shards": 16, "timeout_s": 3000, "depth2": "mixed", "n_filter": 60, "n_agree": 5, "exhaustive": True,
            "required_classes": ["A.pairs", "B.filter_cases", "C.regenerate_cases", "C.mala_cases", "C.hmc_cases",
                                 "B.shape_with_vector_leaf", "B.shape_with_cond_leaf"]},
-    thorough={"shards": 16, "timeout_s": 3 * 3600, "depth2": "full", "n_filter": 600, "n_agree": 40, "exhaustive": True,
+    thorough={"shards": 16, "timeout_s": 3 * 3600, "depth2": "full", "n_filter": 480, "n_agree": 30, "exhaustive": True,
               "required_classes": ["A.pairs", "B.filter_cases", "C.regenerate_cases", "C.mala_cases", "C.hmc_cases"]},
     assumptions=["the alphabet {a,b,c} and nesting bound 3 are representative: the selection classes never inspect the "
                  "characters of an address, only equality"],
@@ -50,7 +50,7 @@ reg(
     quick={"shards": 16, "timeout_s": 3000, "n_programs": 6, "n1": 400,
            "required_classes": ["C01.prog_with_scan", "C01.prog_with_vmap", "C01.prog_with_cond", "C01.prog_with_call",
                                 "C01.prog_with_kwargs", "C01.prog_with_event", "C01.law_exact-pmf", "C01.law_pit"]},
-    thorough={"shards": 16, "timeout_s": 4 * 3600, "n_programs": 120, "n1": 2500,
+    thorough={"shards": 16, "timeout_s": 4 * 3600, "n_programs": 48, "n1": 1500,
               "required_classes": ["C01.prog_with_scan", "C01.prog_with_vmap", "C01.prog_with_cond", "C01.law_exact-pmf", "C01.law_pit"]},
 )
 
@@ -63,7 +63,7 @@ reg(
     quick={"shards": 16, "timeout_s": 3000, "n_cases": 7, "n1": 400,
            "required_classes": ["C02.subset_none", "C02.subset_all", "C02.subset_partial_inside_subcall",
                                 "C02.subset_whole_subcall_missing", "C02.prog_with_scan", "C02.prog_with_vmap", "C02.prog_with_cond"]},
-    thorough={"shards": 16, "timeout_s": 4 * 3600, "n_cases": 100, "n1": 2500,
+    thorough={"shards": 16, "timeout_s": 4 * 3600, "n_cases": 56, "n1": 1500,
               "required_classes": ["C02.subset_none", "C02.subset_all", "C02.subset_partial_inside_subcall", "C02.subset_whole_subcall_missing"]},
 )
 
@@ -76,7 +76,7 @@ reg(
     quick={"shards": 16, "timeout_s": 3000, "n_cases": 12, "n_top": 3,
            "required_classes": ["C03.top_level_scan", "C03.top_level_vmap", "C03.flip", "C03.noflip", "C03.args_changed", "C03.args_same", "C03.constraints_some",
                                 "C03.constraints_none", "C03.prog_with_scan", "C03.prog_with_vmap", "C03.prog_with_cond"]},
-    thorough={"shards": 16, "timeout_s": 4 * 3600, "n_cases": 250, "n_top": 40,
+    thorough={"shards": 16, "timeout_s": 4 * 3600, "n_cases": 96, "n_top": 24,
               "required_classes": ["C03.top_level_scan", "C03.flip", "C03.noflip", "C03.args_changed", "C03.constraints_some"]},
 )
 
@@ -90,7 +90,7 @@ reg(
     quick={"shards": 16, "timeout_s": 3000, "n_cases": 8, "n1": 400,
            "required_classes": ["C04.sel_none", "C04.sel_all", "C04.sel_proper", "C04.prog_with_scan", "C04.prog_with_vmap",
                                 "C04.prog_with_cond", "C04.selection_reaches_into_subcall", "C04.sel_with_connective", "C04.args_changed"]},
-    thorough={"shards": 16, "timeout_s": 4 * 3600, "n_cases": 120, "n1": 2500,
+    thorough={"shards": 16, "timeout_s": 4 * 3600, "n_cases": 64, "n1": 1500,
               "required_classes": ["C04.sel_none", "C04.sel_all", "C04.sel_proper", "C04.prog_with_scan", "C04.prog_with_vmap"]},
 )
 
@@ -105,7 +105,7 @@ reg(
     quick={"shards": 16, "timeout_s": 3000, "n_histories": 3, "max_ops": 6,
            "required_classes": ["C05.step_update", "C05.step_regenerate", "C05.step_mh", "C05.step_mala", "C05.step_hmc",
                                 "C05.step_jit", "C05.step_vector", "C05.pair_update>update"]},
-    thorough={"shards": 16, "timeout_s": 4 * 3600, "n_histories": 30, "max_ops": 14,
+    thorough={"shards": 16, "timeout_s": 4 * 3600, "n_histories": 20, "max_ops": 12,
               "required_classes": ["C05.step_update", "C05.step_regenerate", "C05.step_mh", "C05.step_mala", "C05.step_hmc", "C05.step_jit", "C05.step_vector"]},
 )
 
@@ -119,7 +119,7 @@ reg(
     quick={"shards": 16, "timeout_s": 3000, "n_cases": 40, "n_runs": 1500, "stat_every": 8,
            "required_classes": ["C12.systematic", "C12.categorical", "C12.w_degenerate", "C12.w_partly_neg_inf", "C12.w_near_uniform",
                                 "C12.w_wide_range", "C12.w_generic", "C12.N_1", "C12.N_large", "C12.offset_cells_probed"]},
-    thorough={"shards": 16, "timeout_s": 3 * 3600, "n_cases": 500, "n_runs": 6000, "stat_every": 4,
+    thorough={"shards": 16, "timeout_s": 3 * 3600, "n_cases": 320, "n_runs": 6000, "stat_every": 4,
               "required_classes": ["C12.systematic", "C12.categorical", "C12.w_degenerate", "C12.w_partly_neg_inf", "C12.N_1"]},
 )
 
@@ -132,7 +132,7 @@ reg(
     "(sparse or K != M) for HMMs, T >= 2 and d_obs != d_state for LG. Distinct = hash of the case.",
     quick={"shards": 16, "timeout_s": 3000, "n_cases": 24, "n1": 4000, "stat_every": 3,
            "required_classes": ["C20.hmm", "C20.lg", "C20.hmm_sparse", "C20.hmm_T1", "C20.lg_nonsquare", "C20.lg_T1", "C20.lg_square"]},
-    thorough={"shards": 16, "timeout_s": 3 * 3600, "n_cases": 300, "n1": 20000, "stat_every": 2,
+    thorough={"shards": 16, "timeout_s": 3 * 3600, "n_cases": 200, "n1": 20000, "stat_every": 2,
               "required_classes": ["C20.hmm", "C20.lg", "C20.hmm_sparse", "C20.hmm_T1", "C20.lg_nonsquare", "C20.lg_T1"]},
 )
 
@@ -147,7 +147,7 @@ reg(
            "required_classes": ["C13.dist_" + d for d in ["normal", "flip", "categorical", "exponential", "geometric", "multivariate_normal",
                                                           "bernoulli", "binomial", "negative_binomial", "gamma", "dirichlet", "multinomial", "zipf",
                                                           "tfp:Logistic", "custom:shifted_exponential"]] + ["C13.mode_" + m for m in ["sample_shape", "vmap_keys", "modular_vmap", "gen_site", "kwargs"]]},
-    thorough={"shards": 16, "timeout_s": 3 * 3600, "n_cases": 150, "n1": 20000, "required_classes": ["C13.dist_normal", "C13.dist_geometric"]},
+    thorough={"shards": 16, "timeout_s": 3 * 3600, "n_cases": 96, "n1": 20000, "required_classes": ["C13.dist_normal", "C13.dist_geometric"]},
 )
 
 reg(
@@ -188,7 +188,7 @@ reg(
     quick={"shards": 16, "timeout_s": 3000, "n_cases": 12, "n1": 4000,
            "required_classes": ["C07.site_under_scan", "C07.site_under_vmap", "C07.site_under_cond", "C07.site_under_gen",
                                 "C07.nest_scan>scan", "C07.nest_scan>vmap", "C07.nest_vmap>scan", "C07.nest_scan>cond", "C07.nest_vmap>site_ss"]},
-    thorough={"shards": 16, "timeout_s": 3 * 3600, "n_cases": 150, "n1": 20000,
+    thorough={"shards": 16, "timeout_s": 3 * 3600, "n_cases": 96, "n1": 16000,
               "required_classes": ["C07.nest_scan>scan", "C07.nest_scan>vmap", "C07.nest_vmap>scan", "C07.nest_scan>cond"]},
 )
 
@@ -203,7 +203,7 @@ reg(
     quick={"shards": 16, "timeout_s": 3000, "n_histories": 8,
            "required_classes": ["C06.mode_eager", "C06.mode_jit", "C06.mode_vmap_keys", "C06.mode_jit_vmap_keys", "C06.repeat_after_interference",
                                 "C06.prog_with_scan", "C06.prog_with_cond", "C06.prog_with_vmap", "C06.prog_with_gen"]},
-    thorough={"shards": 16, "timeout_s": 3 * 3600, "n_histories": 100,
+    thorough={"shards": 16, "timeout_s": 3 * 3600, "n_histories": 64,
               "required_classes": ["C06.mode_eager", "C06.mode_jit", "C06.mode_vmap_keys", "C06.mode_jit_vmap_keys", "C06.repeat_after_interference"]},
 )
 
@@ -230,7 +230,7 @@ reg(
     "Non-trivial: depth >= 2 or a construct the Seed interpreter does not special-case. Distinct by construction.",
     quick={"shards": 16, "timeout_s": 3000, "depths": [1, 2], "cores_deep": ["site_after_ops", "gf_simulate"], "exhaustive": True,
            "required_classes": ["C14.seed_none", "C14.seed_outer", "C14.seed_inner", "C14.depth_1", "C14.depth_2", "C14.outcome_lowering_error", "C14.outcome_value", "C14.outcome_vmap_error"]},
-    thorough={"shards": 16, "timeout_s": 3 * 3600, "depths": [1, 2], "cores_deep": ["dist_sample", "gf_simulate", "gf_call", "sample_shape", "adev_site", "site_after_ops"], "sample_depth3": 1500, "exhaustive": True,
+    thorough={"shards": 16, "timeout_s": 3 * 3600, "depths": [1, 2], "cores_deep": ["dist_sample", "gf_simulate", "gf_call", "sample_shape", "adev_site", "site_after_ops"], "sample_depth3": 800, "exhaustive": True,
               "required_classes": ["C14.seed_none", "C14.seed_outer", "C14.depth_2", "C14.outcome_lowering_error"]},
     exhaustive=True,
 )
@@ -248,7 +248,7 @@ reg(
            "required_classes": ["C08.axis_other", "C08.axis_none", "C08.axis_0", "C08.feat_sample", "C08.feat_sample_shape", "C08.feat_logpdf",
                                 "C08.feat_inner_vmap", "C08.feat_scan", "C08.feat_cond", "C08.rank_mismatched_params", "C08.packing_dict_last",
                                 "C08.axis_size_inferred", "C08.B_equals_a_lane_dim", "C08.vmap_combinator", "C08.vmap_combinator_axis_none"]},
-    thorough={"shards": 16, "timeout_s": 4 * 3600, "n_cases": 250, "n_vmapgf": 40, "n1": 8000,
+    thorough={"shards": 16, "timeout_s": 4 * 3600, "n_cases": 110, "n_vmapgf": 24, "n1": 6000,
               "required_classes": ["C08.axis_other", "C08.feat_sample_shape", "C08.rank_mismatched_params", "C08.vmap_combinator"]},
 )
 
@@ -264,7 +264,7 @@ reg(
     quick={"shards": 16, "timeout_s": 3000, "n_ir": 6, "n_fam": 3, "n1": 3000,
            "required_classes": ["C09.ir_mh", "C09.ir_mala", "C09.ir_hmc", "C09.selected_array_valued", "C09.selection_inside_subcall",
                                 "C09.threshold_checked", "C09.mixture_indicator", "C09.stationary_mh", "C09.stationary_mala", "C09.stationary_hmc", "C09.stationary_d2"]},
-    thorough={"shards": 16, "timeout_s": 4 * 3600, "n_ir": 90, "n_fam": 40, "n1": 20000,
+    thorough={"shards": 16, "timeout_s": 4 * 3600, "n_ir": 48, "n_fam": 24, "n1": 12000,
               "required_classes": ["C09.ir_mh", "C09.ir_mala", "C09.ir_hmc", "C09.mixture_indicator", "C09.stationary_hmc"]},
 )
 
@@ -281,7 +281,7 @@ reg(
     quick={"shards": 16, "timeout_s": 3000, "n_cases": 6, "n1": 3000,
            "required_classes": ["C10.pipeline", "C10.rejuvenation_smc", "C10.family_D", "C10.family_G", "C10.proposal_custom", "C10.proposal_default",
                                 "C10.move_extend", "C10.move_resample_sys", "C10.move_resample_cat", "C10.move_rejuvenate", "C10.N_1", "C10.N_many", "C10.rsmc_with_kernel"]},
-    thorough={"shards": 16, "timeout_s": 4 * 3600, "n_cases": 80, "n1": 20000,
+    thorough={"shards": 16, "timeout_s": 4 * 3600, "n_cases": 48, "n1": 12000,
               "required_classes": ["C10.pipeline", "C10.rejuvenation_smc", "C10.family_D", "C10.family_G", "C10.proposal_custom", "C10.N_1"]},
 )
 
@@ -299,7 +299,7 @@ reg(
            "required_classes": ["C11.all_enum_exact", "C11.stochastic_calibrated", "C11.composition_of_different_estimator_kinds", "C11.param_depends_on_earlier_draw",
                                 "C11.site_flip_enum", "C11.site_flip_enum_parallel", "C11.site_categorical_enum_parallel", "C11.site_flip_mvd", "C11.site_flip_reinforce",
                                 "C11.site_normal_reparam", "C11.site_normal_reinforce", "C11.mode_jit", "C11.mode_vmap_thetas", "C11.ret_cond"]},
-    thorough={"shards": 16, "timeout_s": 4 * 3600, "n_cases": 100, "n1": 40000,
+    thorough={"shards": 16, "timeout_s": 4 * 3600, "n_cases": 64, "n1": 24000,
               "required_classes": ["C11.all_enum_exact", "C11.stochastic_calibrated", "C11.composition_of_different_estimator_kinds"]},
 )
 
@@ -314,7 +314,7 @@ reg(
     quick={"shards": 16, "timeout_s": 3000, "n_cases": 5, "n1": 4000,
            "required_classes": ["C17.family_mean_field", "C17.family_full_cov", "C17.estimator_reparam", "C17.estimator_reinforce",
                                 "C17.posterior_tightness_checked", "C17.recursion_quadratic", "C17.recursion_enum"]},
-    thorough={"shards": 16, "timeout_s": 4 * 3600, "n_cases": 60, "n1": 30000,
+    thorough={"shards": 16, "timeout_s": 4 * 3600, "n_cases": 40, "n1": 16000,
               "required_classes": ["C17.family_mean_field", "C17.family_full_cov", "C17.posterior_tightness_checked", "C17.recursion_quadratic"]},
 )
 NOT_CLAIMED = {}
